@@ -241,7 +241,7 @@ theorem invC1_recvApp (s s' : PSys) (i : Nat) (m : App) (h : applyEvent s (.recv
   · cases h
 
 theorem invC1_ackCommitted (c0 : Cfg) (s s' : PSys) (i : Nat) (h : applyEvent s (.ackCommitted i) = .ok s')
-    (hL : InvL s) (hB : InvB c0 s) (hC : InvC c0 s) (g : Grow s s') : InvC1 s' := by
+    (hL : InvL s) (hB : InvB s) (hC : InvC s) (g : Grow s s') : InvC1 s' := by
   have hn1 := hC.c1.node i
   simp only [applyEvent, ok] at h
   split at h
@@ -263,7 +263,7 @@ theorem invC1_ackCommitted (c0 : Cfg) (s s' : PSys) (i : Nat) (h : applyEvent s 
   · cases h
 
 theorem invC1_ackSelf (c0 : Cfg) (s s' : PSys) (i idx : Nat) (h : applyEvent s (.ackSelf i idx) = .ok s')
-    (hV : InvV c0 (vsys s)) (hL : InvL s) (hC1 : InvC1 s) (g : Grow s s') : InvC1 s' := by
+    (hV : InvV (vsys s)) (hL : InvL s) (hC1 : InvC1 s) (g : Grow s s') : InvC1 s' := by
   have hn1 := hC1.node i
   simp only [applyEvent, ok] at h
   split at h
@@ -282,7 +282,7 @@ theorem invC1_ackSelf (c0 : Cfg) (s s' : PSys) (i idx : Nat) (h : applyEvent s (
 
 theorem invC1_installSnap (c0 : Cfg) (s s' : PSys) (i t idx sterm : Nat)
     (h : applyEvent s (.installSnap i t idx sterm) = .ok s')
-    (hR : InvR s) (hL : InvL s) (hC : InvC c0 s) (g : Grow s s') : InvC1 s' := by
+    (hR : InvR s) (hL : InvL s) (hC : InvC s) (g : Grow s s') : InvC1 s' := by
   have hn1 := hC.c1.node i
   simp only [applyEvent, ok] at h
   split at h
@@ -317,11 +317,11 @@ theorem invC1_installSnap (c0 : Cfg) (s s' : PSys) (i t idx sterm : Nat)
 
 /-! ### the step theorem -/
 
-theorem invC1_step (c0 : Cfg) (hne : c0.incoming ≠ [] ∨ c0.outgoing ≠ []) (s s' : PSys) (e : Event)
-    (hc : e.cfgOk c0) (h : applyEvent s e = .ok s')
-    (hV : InvV c0 (vsys s)) (hV' : InvV c0 (vsys s')) (hR : InvR s) (hR' : InvR s')
+theorem invC1_step (c0 : Cfg) (s s' : PSys) (e : Event)
+    (h : applyEvent s e = .ok s')
+    (hV : InvV (vsys s)) (hV' : InvV (vsys s')) (hR : InvR s) (hR' : InvR s')
     (hL : InvL s) (hL' : InvL s') (hA : InvA s) (hA' : InvA s')
-    (hB : InvB c0 s) (hB' : InvB c0 s') (hC : InvC c0 s) (g : Grow s s') : InvC1 s' := by
+    (hB : InvB s) (hB' : InvB s') (hC : InvC s) (g : Grow s s') : InvC1 s' := by
   have hC1 := hC.c1
   have same : ∀ i, NC1 s (s.nodes i) := fun i => hC1.node i
   cases e with
